@@ -140,6 +140,22 @@ fn shapes() -> Vec<Shape> {
     v
 }
 
+/// the same shapes at extreme absolute scales (J_P does not depend on the scale; race values scale as 1/w, so anything
+/// compared against an absolute constant shows here)
+fn scaled_shapes() -> Vec<Shape> {
+    let mut v = Vec::new();
+    for (sname, s) in [("x 2^70", 2f64.powi(70)), ("x 2^-70", 2f64.powi(-70)), ("x 1e15", 1e15), ("x 2^600", 2f64.powi(600))] {
+        for (name, roles) in [
+            ("common items, different weights", vec![(1., 2.), (3., 1.), (2., 2.), (1., 5.), (4., 0.5)]),
+            ("two items 1:3", vec![(1., 1.), (3., 3.), (0., 1.)]),
+        ] {
+            let n: &'static str = Box::leak(format!("{} {}", name, sname).into_boxed_str());
+            v.push(Shape { name: n, roles: roles.iter().map(|(a, b): &(f64, f64)| (a * s, b * s)).collect() });
+        }
+    }
+    v
+}
+
 struct PartOut {
     mean: f64,
     se: f64,
@@ -299,15 +315,19 @@ pub fn run(ctx: &Ctx) -> i32 {
     let mut pdetails = Vec::new();
     let mut maxz: f64 = 0.;
     let mut cfg_i = 0u64;
-    for sh in shapes() {
+    let n_plain = shapes().len();
+    for (shi, sh) in shapes().into_iter().chain(scaled_shapes()).enumerate() {
+        let scaled = shi >= n_plain;
         let j = jp(&sh.roles);
         let sumw: f64 = sh.roles.iter().map(|w| w.0).sum();
-        for &m in &ms {
-            for (vi, v) in VARS.iter().enumerate() {
+        // scaled shapes: one size, both entry points of every variant
+        let ms_here: Vec<usize> = if scaled { vec![8] } else { ms.clone() };
+        for &m in &ms_here {
+            for (vi, v) in VARS.iter().enumerate().flat_map(|x| if scaled { vec![x, x] } else { vec![x] }) {
                 cfg_i += 1;
                 let alt = (cfg_i + vi as u64) % 2 == 0;
                 let cost = if *v == Variant::P3aShaU64 { 4 } else { 1 };
-                let t = (budget / (2 * sh.roles.len() as u64 * cost)).clamp(200, ctx.pick(40_000, 1_000_000));
+                let t = (budget / (2 * sh.roles.len() as u64 * cost) / if scaled { 4 } else { 1 }).clamp(200, ctx.pick(40_000, 1_000_000));
                 let b0 = base + (cfg_i << 40);
                 let p = match partition(*v, alt, m, &sh, t, b0) {
                     Ok(p) => p,
@@ -408,7 +428,7 @@ pub fn run(ctx: &Ctx) -> i32 {
     let coverage = json!({
         "evaluations": evals,
         "distinct_nontrivial": pdetails.len() as u64 + tdetails.len() as u64 * n_tab / 4,
-        "rule": "(1) for every identifier of a block of 2^17 (2^21) and m in {2,3,4,8,16,(64,256)}, variants 2, 3 (Fnv and no-op hashers) and 3a-Sha: the single-item sketch is computed by the real code and the per-position register (hook H2) law is compared with Exp(1/m) (variant 2) resp. Exp(ln(m/(m-1))) (variants 3) by KS, the position of the minimum with the uniform law by chi2; (2) 12 weighted-set shapes (equal weights, identical, disjoint, nested, weights differing by 1e6, 1 vs 300, 200 pseudo-random weights, common items with different weights, sets of two, three and four items) x m in {2,3,8,32,(4,128)} x 6 variants (2, 3, 3a, 3a-Sha, and 2 / 3a with the no-op hasher) x alternating entry points (hash_item / IndexMap / HashMap) on T disjoint labellings: |mean - J_P| <= 6 se with J_P computed from its definition, MSE <= J_P(1-J_P)/m + 6 se; (3) on the same runs the share of positions won by each item of A against w/sum(w); exceedances are confirmed on a 4x larger fresh block; distinct = configurations + block elements (one per identifier, conservatively a quarter counted)",
+        "rule": "(1) for every identifier of a block of 2^17 (2^21) and m in {2,3,4,8,16,(64,256)}, variants 2, 3 (Fnv and no-op hashers) and 3a-Sha: the single-item sketch is computed by the real code and the per-position register (hook H2) law is compared with Exp(1/m) (variant 2) resp. Exp(ln(m/(m-1))) (variants 3) by KS, the position of the minimum with the uniform law by chi2; (2) 12 weighted-set shapes plus 8 scaled ones (two shapes with all weights multiplied by 2^70, 2^-70, 1e15, 2^600; m=8, both entry points of every variant) (equal weights, identical, disjoint, nested, weights differing by 1e6, 1 vs 300, 200 pseudo-random weights, common items with different weights, sets of two, three and four items) x m in {2,3,8,32,(4,128)} x 6 variants (2, 3, 3a, 3a-Sha, and 2 / 3a with the no-op hasher) x alternating entry points (hash_item / IndexMap / HashMap) on T disjoint labellings: |mean - J_P| <= 6 se with J_P computed from its definition, MSE <= J_P(1-J_P)/m + 6 se; (3) on the same runs the share of positions won by each item of A against w/sum(w); exceedances are confirmed on a 4x larger fresh block; distinct = configurations + block elements (one per identifier, conservatively a quarter counted)",
         "samples": [
             {"table": {"variant": "P3", "m": 8, "item": base, "weight": 1.0}},
             {"shape": {"name": "weights differing by 1e6", "J_P": jp(&shapes()[4].roles)}},
